@@ -7,10 +7,15 @@
 mod ev;
 mod gen;
 mod lookup;
+mod pt;
 mod rm;
+mod scen;
 mod sys;
+mod sysmc;
+mod sysprops;
 mod tree;
 mod wk;
+mod xplore;
 
 use ev::*;
 use serde_json::Value;
@@ -18,6 +23,7 @@ use serde_json::Value;
 fn n_items(prop: &str, tier: &str) -> usize {
     match prop {
         "C01" | "C04" => lookup::n_items(tier),
+        "C02" | "C03" => sysprops::n_items(prop, tier),
         _ => 0,
     }
 }
@@ -25,6 +31,7 @@ fn n_items(prop: &str, tier: &str) -> usize {
 fn run_item(prop: &str, tier: &str, idx: usize, only: Option<&Value>) -> sys::MResult<ItemResult> {
     match prop {
         "C01" | "C04" => lookup::run_item(prop, tier, idx, only),
+        "C02" | "C03" => sysprops::run_item(prop, tier, idx, only),
         _ => sys::mach(format!("no engine for {}", prop)),
     }
 }
@@ -32,6 +39,7 @@ fn run_item(prop: &str, tier: &str, idx: usize, only: Option<&Value>) -> sys::MR
 fn report(prop: &str, tier: &str) -> Report {
     match prop {
         "C01" | "C04" => lookup::report(prop, tier),
+        "C02" | "C03" => sysprops::report(prop, tier),
         _ => unreachable!(),
     }
 }
@@ -67,6 +75,11 @@ fn main() {
                 Err(e) => ItemResult { machinery_error: Some(format!("item {}: {}", idx, e)), ..Default::default() },
             };
             println!("{}", serde_json::to_string(&r).unwrap());
+        }
+        "trace" => {
+            // vmc trace <K|E> <warm|cold> '<op json>'
+            let op: proto::Op = serde_json::from_str(&args[4]).expect("op json");
+            if let Err(e) = sysprops::trace_cmd(&args[2], op, args[3] == "warm") { eprintln!("MACHINERY ERROR: {}", e); std::process::exit(2); }
         }
         "replay" => {
             let prop = args[2].clone();
